@@ -37,11 +37,24 @@
 (*                result for every key                                     *)
 (*   NoRecompute  a run that follows a completed run performs no Compute   *)
 (*   Terminates   every run that is not crashed ends (liveness, cfg _live) *)
-(*   FinalWhole   (lemma, temp design) a final path is never partial       *)
+(*   FinalWhole   (temp design) what is visible under a final name is      *)
+(*                always complete -- also after a crash strictly inside a  *)
+(*                write, which leaves a temporary file holding a strict    *)
+(*                prefix (tmp[k] < L); the wrong instance Recover = TRUE   *)
+(*                (leftover temporary files are promoted at the start of   *)
+(*                the next run) is refuted through NoRaise (cfg _promote)  *)
 (*   Injective    distinct keys have distinct stored entries; the wrong     *)
 (*                instance LossyNames = TRUE (siblings share a file) is    *)
 (*                refuted through RightResults: the second sibling gets    *)
 (*                the first one's result (cfg _lossy)                      *)
+(*   AllStored, ComputesExactlyMissing                                     *)
+(*                the contract through EVERY entry point that takes cache=: *)
+(*                one whole entry per key after a run; a run computes       *)
+(*                exactly the keys whose entry was missing at its start     *)
+(*                (fresh cache, repeated run, half-filled cache after       *)
+(*                DropEntries).  The wrong instance Forwards = FALSE (an    *)
+(*                entry point that accepts cache= but drops it) is refuted  *)
+(*                through NoRecompute (cfg _nocache)                        *)
 (*   RightResults every completed run returns the current function's      *)
 (*                results -- also in-process histories Run, Rerun,         *)
 (*                [Mutate the returned objects, Rerun,] ClearCache (cache  *)
@@ -64,6 +77,11 @@ CONSTANTS
     Design,     \* "direct" | "temp" | "any" (any: chosen in Init)
     Policy,     \* "trust" | "validate" | "any"
     RenameAt,   \* "closed" (contract) | "written" (rename before close: wrong order)
+    Recover,    \* TRUE: implementation-shaped wrong instance -- when a run starts after a crash, leftover temporary
+                \*       files are promoted (renamed) to their final names, whatever they hold (must be refuted)
+    Forwards,   \* TRUE: the entry point hands the caller's cache on to the map (contract).  FALSE: implementation-shaped
+                \*       wrong instance -- an entry point that accepts cache= but drops it: nothing is stored or reused
+    MaxDrop,    \* how often the caller may delete some (not all) entries between runs (half-filled cache)
     LossyNames, \* TRUE: implementation-shaped wrong instance -- the file name forgets what distinguishes the
                 \*       "sibling" keys 1 and 2 (they differ only in characters a lossy name function drops)
     Memo,       \* TRUE: implementation-shaped wrong instance -- a process-wide memo keyed by the file path
@@ -95,6 +113,7 @@ VARIABLES
     fv,         \* [Keys -> 0 | version]     which version's result the whole final file holds
     memo,       \* [Keys -> 0 | value]       process-wide memo of loaded values (only used when Memo); 99 = mutated
     clears, extra,
+    missing,    \* keys whose entry was not (whole) on disk when the current run started
     ops,        \* what the caller did so far: "run", "rerun", "mutate", "clear", "crash"
     computed,   \* keys computed in the current run
     status,     \* "running" | "raised" | "done" | "end"
@@ -104,8 +123,8 @@ VARIABLES
     fresh       \* TRUE exactly in the state right after a Crash
 
 vars == <<design, policy, fin, tmp, pc, taken, res, computed, status, verify, crashes, snaps, fresh,
-          fn, fv, memo, clears, extra, ops>>
-mem == <<fn, fv, memo, clears, extra, ops>>
+          fn, fv, memo, clears, extra, ops, missing>>
+mem == <<fn, fv, memo, clears, extra, ops, missing>>
 files == <<fin, tmp>>
 conf == <<design, policy>>
 
@@ -120,7 +139,7 @@ Init ==
     /\ res = [k \in Keys |-> 0]
     /\ computed = {}
     /\ fn = 1 /\ fv = [k \in Keys |-> 0] /\ memo = [k \in Keys |-> 0]
-    /\ clears = 0 /\ extra = 0 /\ ops = <<"run">>
+    /\ clears = 0 /\ extra = 0 /\ ops = <<"run">> /\ missing = Keys
     /\ status = "running"
     /\ verify = FALSE
     /\ crashes = 0
@@ -142,7 +161,7 @@ Take(w, k) ==
 \* file.exists()
 Lookup(w) ==
     /\ At(w, "taken")
-    /\ Goto(w, IF fin[Nm(pc[w].k)] # Absent THEN "hit" ELSE "miss")
+    /\ Goto(w, IF Forwards /\ fin[Nm(pc[w].k)] # Absent THEN "hit" ELSE "miss")
     /\ fresh' = FALSE
     /\ UNCHANGED <<conf, mem, files, taken, res, computed, status, verify, crashes, snaps>>
 
@@ -155,7 +174,7 @@ LoadOk(w) ==
           /\ memo' = IF Memo THEN [memo EXCEPT ![Nm(k)] = val] ELSE memo
     /\ pc' = [pc EXCEPT ![w] = IdlePc]
     /\ fresh' = FALSE
-    /\ UNCHANGED <<conf, fn, fv, clears, extra, ops, files, taken, computed, status, verify, crashes, snaps>>
+    /\ UNCHANGED <<conf, missing, fn, fv, clears, extra, ops, files, taken, computed, status, verify, crashes, snaps>>
 
 \* loading a file that is not whole fails; what that means is the policy
 LoadBad(w) ==
@@ -175,7 +194,16 @@ Compute(w) ==
     /\ UNCHANGED <<conf, mem, files, taken, res, status, verify, crashes, snaps>>
 
 \* open(..., "wb") creates or truncates
+\* an entry point that dropped the cache returns the computed value without storing it
+ReturnUnstored(w) ==
+    /\ ~Forwards /\ At(w, "computed")
+    /\ res' = [res EXCEPT ![pc[w].k] = pc[w].v]
+    /\ pc' = [pc EXCEPT ![w] = IdlePc]
+    /\ fresh' = FALSE
+    /\ UNCHANGED <<conf, mem, files, taken, computed, status, verify, crashes, snaps>>
+
 Open(w) ==
+    /\ Forwards
     /\ At(w, "computed")
     /\ pc' = [pc EXCEPT ![w].at = "writing", ![w].b = 0]
     /\ IF design = "direct"
@@ -206,7 +234,7 @@ Flush(w) ==
     /\ SetContent(w, Content(w) + 1)
     /\ fv' = IF IntoFinal(w) THEN [fv EXCEPT ![Nm(pc[w].k)] = pc[w].v] ELSE fv   \* whose result the final path is getting
     /\ fresh' = FALSE
-    /\ UNCHANGED <<conf, fn, memo, clears, extra, ops, pc, taken, res, computed, status, verify, crashes, snaps>>
+    /\ UNCHANGED <<conf, missing, fn, memo, clears, extra, ops, pc, taken, res, computed, status, verify, crashes, snaps>>
 
 \* close() flushes whatever is still buffered
 Close(w) ==
@@ -217,7 +245,7 @@ Close(w) ==
     /\ fv' = IF IntoFinal(w) THEN [fv EXCEPT ![Nm(pc[w].k)] = pc[w].v] ELSE fv
     /\ Goto(w, IF IntoFinal(w) THEN "saved" ELSE "closed")
     /\ fresh' = FALSE
-    /\ UNCHANGED <<conf, fn, memo, clears, extra, ops, taken, res, computed, status, verify, crashes, snaps>>
+    /\ UNCHANGED <<conf, missing, fn, memo, clears, extra, ops, taken, res, computed, status, verify, crashes, snaps>>
 
 \* wrong order: the temporary file is moved onto the final path while it is still open
 RenameEarly(w) ==
@@ -228,7 +256,7 @@ RenameEarly(w) ==
     /\ pc' = [pc EXCEPT ![w].mv = TRUE]
     /\ fv' = [fv EXCEPT ![Nm(pc[w].k)] = pc[w].v]
     /\ fresh' = FALSE
-    /\ UNCHANGED <<conf, fn, memo, clears, extra, ops, taken, res, computed, status, verify, crashes, snaps>>
+    /\ UNCHANGED <<conf, missing, fn, memo, clears, extra, ops, taken, res, computed, status, verify, crashes, snaps>>
 
 \* atomic replace of the final path by the temporary file
 Rename(w) ==
@@ -239,7 +267,7 @@ Rename(w) ==
     /\ fv' = [fv EXCEPT ![Nm(pc[w].k)] = pc[w].v]
     /\ Goto(w, "saved")
     /\ fresh' = FALSE
-    /\ UNCHANGED <<conf, fn, memo, clears, extra, ops, taken, res, computed, status, verify, crashes, snaps>>
+    /\ UNCHANGED <<conf, missing, fn, memo, clears, extra, ops, taken, res, computed, status, verify, crashes, snaps>>
 
 Return(w) ==
     /\ At(w, "saved")
@@ -269,8 +297,22 @@ NextRun ==
     /\ verify' = TRUE
     /\ extra' = IF verify THEN extra + 1 ELSE extra
     /\ ops' = Append(ops, "rerun")
+    /\ missing' = {k \in Keys : fin[Nm(k)] # L}
     /\ fresh' = FALSE
     /\ UNCHANGED <<conf, fn, fv, memo, clears, files, crashes, snaps>>
+
+\* the caller deletes SOME entries (half-filled cache) and runs again: exactly those have to be computed
+DropEntries(S) ==
+    /\ status = "done" /\ S # {} /\ S # Keys /\ Len(SelectSeq(ops, LAMBDA o : o = "rerun*")) < MaxDrop
+    /\ \A k \in S : fin[Nm(k)] = L
+    /\ fin' = [n \in Keys |-> IF \E k \in S : Nm(k) = n THEN Absent ELSE fin[n]]
+    /\ fv' = [n \in Keys |-> IF \E k \in S : Nm(k) = n THEN 0 ELSE fv[n]]
+    /\ StartRun
+    /\ verify' = FALSE
+    /\ missing' = S
+    /\ ops' = ops \o <<"drop" \o ToString(S), "rerun*">>
+    /\ fresh' = FALSE
+    /\ UNCHANGED <<conf, fn, memo, clears, extra, tmp, crashes, snaps>>
 
 \* the caller (same process) mutates the objects a completed run returned
 Mutate ==
@@ -278,7 +320,7 @@ Mutate ==
     /\ memo' = IF Memo THEN [k \in Keys |-> IF memo[k] # 0 THEN 99 ELSE 0] ELSE memo
     /\ ops' = Append(ops, "mutate")
     /\ fresh' = FALSE
-    /\ UNCHANGED <<conf, fn, fv, clears, extra, files, pc, taken, res, computed, status, verify, crashes, snaps>>
+    /\ UNCHANGED <<conf, missing, fn, fv, clears, extra, files, pc, taken, res, computed, status, verify, crashes, snaps>>
 
 \* the caller deletes the cache directory because the mapped function changed, and runs again (same process)
 ClearCache ==
@@ -290,6 +332,7 @@ ClearCache ==
     /\ StartRun
     /\ verify' = FALSE
     /\ ops' = ops \o <<"clear", "run">>
+    /\ missing' = Keys
     /\ fresh' = FALSE
     /\ UNCHANGED <<conf, memo, crashes, snaps>>
 
@@ -310,17 +353,25 @@ Crash ==
     /\ snaps' = IF EmitOn THEN Append(snaps, Snapshot) ELSE snaps
     /\ memo' = [k \in Keys |-> 0]                 \* a fresh process
     /\ ops' = Append(ops, "crash")
+    /\ IF Recover
+          THEN \* the next run's set-up block publishes every leftover temporary file under its final name
+               /\ fin' = [n \in Keys |-> IF tmp[n] # Absent THEN tmp[n] ELSE fin[n]]
+               /\ tmp' = [n \in Keys |-> Absent]
+               /\ fv' = [n \in Keys |-> IF tmp[n] # Absent THEN Val(fn, n) ELSE fv[n]]
+          ELSE UNCHANGED <<files, fv>>
+    /\ missing' = {k \in Keys : fin'[Nm(k)] # L}
     /\ fresh' = TRUE
-    /\ UNCHANGED <<conf, fn, fv, clears, extra, files, verify>>
+    /\ UNCHANGED <<conf, fn, clears, extra, verify>>
 
 Stutter == status \in {"end", "raised"} /\ UNCHANGED vars
 
-Tau(w) == Lookup(w) \/ Open(w) \/ Write(w) \/ Flush(w) \/ Close(w) \/ Rename(w) \/ RenameEarly(w) \/ Return(w)
+Tau(w) == Lookup(w) \/ ReturnUnstored(w) \/ Open(w) \/ Write(w) \/ Flush(w) \/ Close(w) \/ Rename(w) \/ RenameEarly(w) \/ Return(w)
 
 Progress ==
     \/ \E w \in Workers : \/ \E k \in Keys : Take(w, k)
                           \/ Tau(w) \/ LoadOk(w) \/ LoadBad(w) \/ Compute(w)
     \/ FinishRun \/ NextRun \/ EndAll \/ Mutate \/ ClearCache
+    \/ \E S \in SUBSET Keys : DropEntries(S)
 
 Next == Progress \/ Crash \/ Stutter
 
@@ -342,12 +393,17 @@ RightResults == status \in {"done", "end"} => \A k \in Keys : res[k] = Val(fn, k
 \* the key -> stored-entry map is injective: two distinct keys never read or overwrite each other's entry
 Injective == \A a, b \in Keys : a # b => Nm(a) # Nm(b)
 NoRecompute == verify => computed = {}
+\* the cache contract holds through every entry point that takes cache=: a completed run leaves one whole entry per
+\* key, and a run computes exactly the keys whose entry was missing when it started (fresh cache: all; repeated run:
+\* none; half-filled cache: the missing ones)
+AllStored == status \in {"done", "end"} => \A k \in Keys : fin[Nm(k)] = L
+ComputesExactlyMissing == status \in {"done", "end"} => computed = missing
 FinalWhole == design = "temp" => \A k \in Keys : fin[k] \in {Absent, L}
 \* two workers never hold the same key
 OneOwner == \A v, w \in Workers : (v # w /\ pc[v].k # 0) => pc[v].k # pc[w].k
 Terminates == <>(status = "end")
 
-EmitOps == (EmitOn /\ status = "end" /\ clears > 0) =>
+EmitOps == (EmitOn /\ status = "end" /\ (MaxClear > 0 \/ MaxDrop > 0)) =>
     PrintT("@J@" \o ToJson([nk |-> NKeys, w |-> W, ops |-> ops]) \o "@E@")
 
 Emit == (EmitOn /\ fresh) =>
